@@ -52,6 +52,8 @@ type c15Case struct {
 	// ExtraKeys != 0 (valid files only): groups carry keys the documented dialect does not have (arch: <some architecture>,
 	// comment: ..., architectures: [...]). The file is refused, or it means what it means without them.
 	ExtraKeys uint64 `json:"extra_keys,omitempty"`
+	// Bulk > 0: comment lines make the file so large that its last group begins behind that byte offset
+	Bulk int `json:"bulk,omitempty"`
 }
 
 var c15ExtraKeyLines = []string{"arch: i386\n", "arch: x86_64\n", "arch: arm\n", "arch: aarch64\n", "arch: x32\n", "arch: \"386\"\n", "architectures: [i386, x32]\n", "comment: generated\n",
@@ -117,6 +119,9 @@ func drawC15(t *rapid.T) c15Case {
 			c.Env = append(c.Env, all[rapid.IntRange(0, len(all)-1).Draw(t, "env")])
 		}
 	}
+	if rapid.IntRange(0, 7).Draw(t, "bulk") == 0 {
+		c.Bulk = []int{65536, 65536, 131072, 1 << 20}[rapid.IntRange(0, 3).Draw(t, "bulkSize")]
+	}
 	if c.Defect == "" && rapid.IntRange(0, 3).Draw(t, "extraKeys") == 0 {
 		c.ExtraKeys = rapid.Uint64Range(1, 1<<40).Draw(t, "extraKeySeed")
 	}
@@ -143,7 +148,32 @@ func drawC15(t *rapid.T) c15Case {
 }
 
 // policyText renders the policy file, with the defect injected.
+// c15PolicyText renders the policy file of the case. Bulk > 0: a block of comment lines in front of the last group makes
+// that group begin behind byte Bulk of the file (a file is a policy whatever its size).
 func c15PolicyText(c *c15Case) (text string, writeFile bool) {
+	text, writeFile = c15PolicyTextBase(c)
+	if c.Bulk <= 0 || !writeFile || text == "" || c.Bulk > 4<<20 {
+		return text, writeFile
+	}
+	lines := strings.SplitAfter(text, "\n")
+	last, off, lastOff := -1, 0, 0
+	for i, l := range lines {
+		if strings.HasPrefix(l, "  - ") {
+			last, lastOff = i, off
+		}
+		off += len(l)
+	}
+	if last < 0 || lastOff > c.Bulk {
+		return text, writeFile
+	}
+	var pad strings.Builder
+	for pad.Len() < c.Bulk-lastOff+200 {
+		pad.WriteString("  # " + strings.Repeat("-", 70) + "\n")
+	}
+	return strings.Join(lines[:last], "") + pad.String() + strings.Join(lines[last:], ""), writeFile
+}
+
+func c15PolicyTextBase(c *c15Case) (text string, writeFile bool) {
 	p := c.Policy
 	ensureCond := func() {
 		for _, g := range p.Groups {
@@ -529,6 +559,9 @@ func checkC15(raw json.RawMessage) (ev.Result, error) {
 	}
 	// valid policy: the file must load; the target runs and observes exactly the policy's decisions
 	res.Classes = append(res.Classes, "valid")
+	if c.Bulk > 0 {
+		res.Classes = append(res.Classes, "policy-file-larger-than-64KiB")
+	}
 	if c.ExtraKeys != 0 {
 		res.Classes = append(res.Classes, "groups-with-keys-outside-the-dialect")
 		if !run.marker && (run.exit != 0 || run.signaled) {
